@@ -361,7 +361,7 @@ def gen_sends(ctx, logs_variants):
             cases.append(case)
     # all byte values and a payload larger than the pipe / pty buffer, per transport
     for tr in TRANSPORTS:
-        big = bytes(range(256)) * (40 if ctx.quick() else 1024)
+        big = bytes(range(256)) * (40 if ctx.quick() else 160)      # stays below the socket / pipe buffer: nobody reads concurrently here (stage_big_sends does)
         cases.append(dict(transport=tr, encoding=None, ops=[('S', bytes(range(256))), ('S', b''), ('L', b'')] + ([('S', big)] if tr != 'pty' else []),
                           logs=('logfile_send',), expect_peer_len=256 + 1 + (len(big) if tr != 'pty' else 0)))
     return cases
